@@ -511,6 +511,9 @@ impl LspServer {
 
     /// `textDocument/didOpen`.
     pub fn open(&mut self, file: &str, text: &str) -> Result<()> {
+        // Versions are numbered per open session of a document, as editors do: a document
+        // that is closed and opened again starts at 1 again.
+        self.versions.insert(file.to_owned(), 0);
         let version = self.next_version(file);
         let uri = self.uri(file);
         self.notify(
